@@ -17,7 +17,8 @@ Open Scope Z_scope.
 
 Inductive ikind :=
 | KCounter | KUpDown | KHist (bounds : list Z) | KGauge
-| KObsCounter | KObsUpDown | KObsGauge.
+| KObsCounter | KObsUpDown | KObsGauge
+| KExpo (unit : Z).   (* Histogram instrument with a base-2 exponential view, MaxScale 0 *)
 
 Definition is_async (x : ikind) : bool :=
   match x with KObsCounter | KObsUpDown | KObsGauge => true | _ => false end.
@@ -28,14 +29,14 @@ Definition kop (x : ikind) : aop :=
   match x with KGauge | KObsGauge => OpSet | _ => OpAdd end.
 
 Definition vecof (x : ikind) (v : Z) : vec :=
-  match x with KHist b => hvec b v | _ => [v] end.
+  match x with KHist b => hvec b v | KExpo u => evec u v | _ => [v] end.
 
 Definition cfg_of (x : ikind) (t : temporality) : aggcfg :=
   {| a_op := kop x; a_pre := is_async x; a_temp := t |}.
 
 Definition class_of (x : ikind) : sclass :=
   match x with
-  | KCounter | KUpDown | KHist _ => CSyncAdd
+  | KCounter | KUpDown | KHist _ | KExpo _ => CSyncAdd
   | KGauge => CSyncGauge
   | KObsCounter | KObsUpDown => CAsyncSum
   | KObsGauge => CAsyncGauge
